@@ -35,7 +35,7 @@ def crash_digest(text):
             continue
         t = re.sub(r"\S*/src/", "src/", m.group(1))
         t = re.sub(r":\d+:", ":", t)
-        return t[:110]
+        return t.replace("Uncaught exception ", "")[:100]
     return ""
 
 
@@ -77,12 +77,19 @@ def _run_shard(a):
     f = os.path.join(d, "b%d.jsonl" % idx)
     with open(f, "w") as fh:
         fh.write("\n".join(lines) + "\n")
-    try:
-        r = subprocess.run(list(wrapper) + [binary, "--batch", f] + list(argv), stdout=subprocess.PIPE,
-                           stderr=subprocess.DEVNULL, text=True, timeout=timeout)
-        out = r.stdout
-    except subprocess.TimeoutExpired as e:
-        out = e.stdout.decode() if isinstance(e.stdout, bytes) else (e.stdout or "")
+    import time
+    for attempt in range(4):
+        try:
+            r = subprocess.run(list(wrapper) + [binary, "--batch", f] + list(argv), stdout=subprocess.PIPE,
+                               stderr=subprocess.DEVNULL, text=True, timeout=timeout)
+            out = r.stdout
+        except subprocess.TimeoutExpired as e:
+            out = e.stdout.decode() if isinstance(e.stdout, bytes) else (e.stdout or "")
+        except OSError:          # binary being relinked by a concurrent build_harness (ETXTBSY / ENOENT): retry
+            out = ""
+        if "#END" in out or not lines:
+            break
+        time.sleep(2)
     try:
         os.unlink(f)
     except OSError:
@@ -253,25 +260,30 @@ def _eval_shard_packed(a):
             groups.append([i])
     if cur:
         groups.append(cur)
-    lines = [json.dumps(pack([progs[i] for i in g]) if len(g) > 1 else progs[g[0]], separators=(",", ":")) for g in groups]
-    outs = _run_shard((binary, d, idx, lines, argv, wrapper, timeout))
     obs = [None] * len(progs)
-    redo = []
-    for g, o in zip(groups, outs):
-        ob = parse_output(o[0], o[1]) if o is not None else {"status": 98, "actors": {}, "sig": [], "end": None, "raw": "", "crash": ""}
-        if len(g) == 1:
-            obs[g[0]] = ob
-        elif ob["status"] != 0:
-            redo.extend(g)          # a crash takes the whole pack down: run its members alone
-        else:
-            for i, u in zip(g, unpack(ob, len(g))):
-                obs[i] = u
-    if redo:
-        outs2 = _run_shard((binary, d, 1000 + idx, [json.dumps(progs[i], separators=(",", ":")) for i in redo], argv, wrapper,
-                            timeout))
-        for i, o in zip(redo, outs2):
-            obs[i] = parse_output(o[0], o[1]) if o is not None else {"status": 98, "actors": {}, "sig": [], "end": None,
-                                                                      "raw": ""}
+    alone = set()
+    empty = {"status": 98, "actors": {}, "sig": [], "end": None, "raw": "", "crash": ""}
+    todo, rnd = groups, 0
+    groups = []
+    while todo:       # a crash takes a whole pack down: bisect the pack until the culprits run alone
+        lines = [json.dumps(pack([progs[i] for i in g]) if len(g) > 1 else progs[g[0]], separators=(",", ":")) for g in todo]
+        outs = _run_shard((binary, d, idx + 1000 * rnd, lines, argv, wrapper, timeout))
+        nxt = []
+        for g, o in zip(todo, outs):
+            ob = parse_output(o[0], o[1]) if o is not None else dict(empty)
+            if len(g) == 1:
+                obs[g[0]] = ob
+                groups.append(g)
+                if rnd:
+                    alone.add(g[0])
+            elif ob["status"] != 0:
+                nxt += [g[:len(g) // 2], g[len(g) // 2:]]
+            else:
+                groups.append(g)
+                for i, u in zip(g, unpack(ob, len(g))):
+                    obs[i] = u
+        todo, rnd = nxt, rnd + 1
+    redo = alone
     res = []
     for g in groups:
         for i in g:
